@@ -318,5 +318,5 @@ func init() {
 	c19Scenarios["accessors"] = c19AccRun
 	vfRapid("C19/accessors",
 		"k >= 2 goroutines, released together by a barrier, make first-time accessor calls on one freshly parsed event",
-		80, 2000, 8, c19AccGen, c19AccCheck)
+		150, 2000, 8, c19AccGen, c19AccCheck)
 }
